@@ -64,6 +64,10 @@ CHECKS = {
          "PARTIAL: C15_load_total / C15_load_ends / C15_build_total / C15_envfile_total hold for all inputs of taskctl's own code between decoders and commands. Panics or hangs inside yaml.v2, encoding/json, go-toml, mapstructure, mergo, doublestar are reachable only by execution: quick = 300 documents x 3-4 commands, thorough = 1 500.",
          "Trusted: Coq kernel; models of Loader.load and of the builders' partial operations; third-party decoders NOT modelled (explored only); python serialisers/mutators + binary. No axioms.",
          "DESIGN.md section 6 C15", "cli"),
+ "C16": ("Coq proof (partial): format independence of weak decoding - for every abstract value whose integers fit float64 exactly and every target type of the schema, the definition decoded from the YAML, JSON and TOML native representations is the same; refutation witness beyond 2^53 (known finding K3); the three files of generated configurations compared pairwise through list/show/graph/run of the real binary, and the observed agreement of scalars at every typed position compared with the model in Coq",
+         "PARTIAL: C16_format_independent / C16_toml_is_yaml hold for all portable values and schema types; the parsers, mapstructure and number formatting are modelled and tied by differential runs only (18 scalars x 6 typed positions against the model; 40 (thorough 260) configurations over every documented key x 3 formats x every command).",
+         "Trusted: Coq kernel; model of native representations and weak-decode rules; yaml.v2 / encoding/json / go-toml / mapstructure NOT verified; lib/fmtlib.py emitters; python driver + binary. No axioms.",
+         "DESIGN.md section 6 C16", "cli"),
  "C17": ("Coq proof: termination of the import traversal for every import structure (fuel above the number of existing paths is never exhausted), each file read once, a successful load reads exactly the reachability closure and merges each file's definitions once (in merge order), relative resolution against the importer, a broken file anywhere in the closure yields an error (no panic, no success), global+project lookup laws; the real binary on generated directory trees compared with the model and with an independent closure monitor in Coq",
          "C17_terminates / C17_each_read_once / C17_closure_and_definitions / C17_relative_to_importer / C17_broken_import_is_an_error / C17_global_alongside_project for all file systems and import graphs. Tied to the code EXHAUSTIVELY on every import graph over <=3 files in nested directories (self-loops, cycles), sampled with reversed lists and redundant relative paths, random graphs to 7 files with directory and repeated imports, one file missing/unparsable at every position, mis-shapen import fields, all 64 global/project splits.",
          "Trusted: Coq kernel; transcription of Loader.load/loadDir (imports set, path.Join/Clean on segment lists); mergo on non-conflicting maps = concatenation; yaml.v2, filepath.Glob order, os.Stat; URL imports not modelled; python driver + binary. No axioms.",
